@@ -493,27 +493,35 @@ def decodeHuffmanSlow (src : Bytes) (fuel : Nat) (st : St) : M St :=
 
 /-! ## decode_blocks -/
 
-/-- one iteration of `while.outer final == 0`, then the loop -/
+/-- one iteration of `while.outer final == 0`: the block header bits and the block; returns `final` -/
+def decodeBlock (src : Bytes) (st : St) : M (Nat × St) := do
+  -- `while this.n_bits < 3 { b0 = read; this.bits |= b0 << (this.n_bits & 3); this.n_bits = (this.n_bits & 3) + 8 }`
+  let st ←
+    if st.nBits < 3 then do
+      let (b0, st) ← readU8 src st
+      .ok { st with bits := st.bits ||| (b0 <<< (st.nBits &&& 3)), nBits := (st.nBits &&& 3) + 8 }
+    else (.ok st : M St)
+  let final := st.bits &&& 1
+  let type := (st.bits >>> 1) &&& 3
+  let st := { st with bits := st.bits >>> 3, nBits := st.nBits - 3 }
+  if type = 0 then do
+    let st ← decodeUncompressed src st
+    .ok (final, st)
+  else if type = 1 then do
+    let st ← initFixedHuffman st
+    let st ← decodeHuffmanSlow src (8 * src.size + 1) { st with endOfBlock := false }
+    .ok (final, st)
+  else if type = 2 then do
+    let st ← initDynamicHuffman src st
+    let st ← decodeHuffmanSlow src (8 * src.size + 1) { st with endOfBlock := false }
+    .ok (final, st)
+  else .error "#bad block"
+
+/-- `decode_blocks`: `while.outer final == 0 { … }` -/
 def decodeBlocks (src : Bytes) : Nat → St → M St
   | 0, _ => .error errFuel
   | f + 1, st => do
-    -- `while this.n_bits < 3 { b0 = read; this.bits |= b0 << (this.n_bits & 3); this.n_bits = (this.n_bits & 3) + 8 }`
-    let st ←
-      if st.nBits < 3 then do
-        let (b0, st) ← readU8 src st
-        .ok { st with bits := st.bits ||| (b0 <<< (st.nBits &&& 3)), nBits := (st.nBits &&& 3) + 8 }
-      else (.ok st : M St)
-    let final := st.bits &&& 1
-    let type := (st.bits >>> 1) &&& 3
-    let st := { st with bits := st.bits >>> 3, nBits := st.nBits - 3 }
-    let st ←
-      if type = 0 then decodeUncompressed src st
-      else do
-        let st ←
-          if type = 1 then initFixedHuffman st
-          else if type = 2 then initDynamicHuffman src st
-          else .error "#bad block"
-        decodeHuffmanSlow src (8 * src.size + 1) { st with endOfBlock := false }
+    let (final, st) ← decodeBlock src st
     if final ≠ 0 then .ok st else decodeBlocks src f st
 
 /-- `transform_io` on a fresh decoder with the whole (closed) source and an unbounded destination:
